@@ -86,12 +86,18 @@ PROPS = {
     },
     "C03": {
         "level": "proof",
+        "verus": ["lexer"],
         "kani": ["apollo-parser/lexer.rs"],
-        "technique": "Kani/CBMC, loop-free harnesses over every char value against the spec's lexical tables",
-        "explanation": "KERNEL ONLY: the character classes the lexer state machine dispatches on (Punctuator table with kinds, NameStart, NameContinue, "
-                       "whitespace/LineTerminator/BOM, EscapedCharacter) equal the October 2021 tables for every char value, and the Start-state classes are pairwise disjoint.",
-        "not_decided": ["token boundaries / maximal munch", "lookahead restrictions on numbers and names", "tokens concatenated reproduce the input", "error iff not a sequence of valid tokens",
-                        "i.e. the state machine Cursor::advance itself (Kani cannot execute it symbolically; no Verus model of CharIndices yet)"],
+        "technique": "Verus contract on the extracted lexer state machine (Cursor::advance) over a ghost cursor model (unbounded) + Kani loop-free harnesses over every char for the lookup tables",
+        "explanation": "Verus proves on the whole extracted state machine Cursor::advance / eof / done / unterminated_spread_operator, for every source text: each call hands out exactly the next "
+                       "piece of the input (token text or error fragment; concatenated in order they reproduce the input), every item except EOF is non-empty (so lexing terminates), EOF "
+                       "only at the end, no cursor operation is used outside its precondition (eatc never with a pushed-back char, drain never on an empty source), and the loop terminates. "
+                       "Kani proves for every char value that the lookup tables (Punctuator kinds, NameStart) and the character classes equal the October 2021 tables; these are the contracts "
+                       "the Verus unit assumes for lookup::*.",
+        "assumptions": ["the ghost model of Cursor's primitives bump / eatc / current_str / prev_str / drain over CharIndices (lexer/cursor.rs; written from their bodies, not verified)",
+                        "one block of advance is dropped by a listed rewrite: the surrogate check of a completed \\uXXXX escape (byte-offset slicing; does not move the cursor)"],
+        "not_decided": ["that each token is the maximal-munch token OF THE RIGHT KIND of the lexical grammar (kinds and lookahead restrictions are not yet tied to a grammar spec)",
+                        "error reported iff the input is not a sequence of valid tokens", "byte offsets reported in Token::index / Error::index"],
     },
     "C21": {
         "level": "proof",
@@ -120,9 +126,9 @@ PROPS = {
     },
     "C01": {
         "level": "proof",
-        "verus": ["parser_core", "limits"],
+        "verus": ["parser_core", "limits", "lexer"],
         "frame": ["grammar_uses_primitives_only"],
-        "explanation": "PARTIAL. Verus proves on the extracted parser primitives (17) and the token-consuming grammar functions (ty, standalone_ty, ty::parse, named_type, "
+        "explanation": "PARTIAL. Verus proves on the extracted lexer state machine (termination, cursor preconditions) and on the extracted parser primitives (17) and the token-consuming grammar functions (ty, standalone_ty, ty::parse, named_type, "
                        "selection_set, field_set, object_field) and entry points parse_type / parse_selection_set: no panic (pop's expect is unreachable: every caller has a "
                        "look-ahead token; push_ignored's unreachable!() is unreachable by the struct invariant; unreachable!() arms of the entry points; no arithmetic overflow "
                        "in LimitTracker); termination (next_token, skip_ignored and the recursion of ty::parse decrease a lexer measure); recursion depth of the extracted recursive "
@@ -134,7 +140,7 @@ PROPS = {
     },
     "C02": {
         "level": "proof",
-        "verus": ["parser_core"],
+        "verus": ["parser_core", "lexer"],
         "frame": ["grammar_uses_primitives_only", "document_ends_with_flush"],
         "explanation": "PARTIAL, one known finding. Conserved quantity all_text = tree text + queued tokens + look-ahead token + unread input: Verus proves every parser primitive "
                        "and every extracted grammar function conserves it in order (nothing lost, nothing duplicated, nothing reordered), push_ignored flushes the queue, and "
